@@ -50,6 +50,10 @@ func RaceScenario(sc *core.Scenario, repeats int) error {
 	for _, n := range ex.Removed {
 		lib.RemoveRuleEntry(n, esim.KBName, esim.KBVersion)
 	}
+	var sharedEngine *engine.GruleEngine
+	if ex.SharedEngine {
+		sharedEngine = &engine.GruleEngine{MaxCycle: ex.SharedMaxCycle}
+	}
 	for rep := 0; rep < repeats; rep++ {
 		var wg sync.WaitGroup
 		start := make(chan struct{})
@@ -82,6 +86,9 @@ func RaceScenario(sc *core.Scenario, repeats int) error {
 							continue
 						}
 						eng := &engine.GruleEngine{MaxCycle: st.MaxCycle}
+						if sharedEngine != nil {
+							eng = sharedEngine
+						}
 						if st.Op == "fetch" {
 							_, _ = eng.FetchMatchingRules(dc, kb)
 						} else {
